@@ -52,7 +52,7 @@ class MVertex:
         return not self.__eq__(o)
 
     def __hash__(self) -> int:
-        return hash((id(self.graph), self._i, "v"))
+        return hash((self.graph.uid, self._i, "v"))  # not the address: verdicts must not depend on memory layout
 
     def __getitem__(self, k: str) -> Any:
         self._check()
@@ -131,7 +131,7 @@ class MEdge:
         return not self.__eq__(o)
 
     def __hash__(self) -> int:
-        return hash((id(self.graph), self._i, "e"))
+        return hash((self.graph.uid, self._i, "e"))
 
     @property
     def source(self) -> int:
